@@ -1,7 +1,7 @@
 use std::env;
 use std::ffi::{CString, OsStr, OsString};
 use std::fs::File;
-use std::io::{Error, Result};
+use std::io::{Error, ErrorKind, Result};
 use std::iter;
 use std::marker::PhantomData;
 use std::mem;
@@ -295,13 +295,22 @@ pub const WNOHANG: i32 = libc::WNOHANG;
 
 pub fn waitpid(pid: u32, flags: i32) -> Result<(u32, ExitStatus)> {
     let mut status = 0 as c_int;
-    let pid = check_err(unsafe {
-        libc::waitpid(
-            pid as libc::pid_t,
-            &mut status as *mut c_int,
-            flags as c_int,
-        )
-    })?;
+    let pid = loop {
+        let result = check_err(unsafe {
+            libc::waitpid(
+                pid as libc::pid_t,
+                &mut status as *mut c_int,
+                flags as c_int,
+            )
+        });
+        match result {
+            // A signal handler ran while we were waiting: nothing has been
+            // learnt about the child, wait again.  (Giving up here would
+            // make Popen::drop leave the child unreaped.)
+            Err(ref e) if e.kind() == ErrorKind::Interrupted => continue,
+            other => break other?,
+        }
+    };
     Ok((pid as u32, decode_exit_status(status)))
 }
 
